@@ -348,12 +348,77 @@ def concurrency(run: lib.Run):
                                   "sequential": [seq[i] for i in idx[:5]], "spec": "concurrent evaluations affected each other"})
 
 
+def ambient_context(run: lib.Run) -> None:
+    """collaborators that read ambient state the CALLER set (a contextvars.ContextVar: tenant, request scope): the synchronous API, the
+    asynchronous API and the synchronous API inside a running loop hand the collaborator the caller's CURRENT context — on the first call
+    of a thread and on every later one, on the main thread and on a re-used pool thread"""
+    import contextvars
+    from concurrent.futures import ThreadPoolExecutor
+    tenant: contextvars.ContextVar = contextvars.ContextVar("verif_c14_tenant", default="none")
+    grants = {"acme": ["admin"], "globex": []}
+    pol = {"algorithm": "deny-overrides", "rules": [{"id": "adm", "effect": "permit", "actions": ["read"], "resource": {"type": "doc"},
+                                                      "condition": {"hasAny": [{"attr": "subject.roles"}, ["admin"]]}}]}
+
+    class SyncRes:
+        def expand(self, roles):
+            return list(roles or []) + grants.get(tenant.get(), [])
+
+    class AsyncRes:
+        async def expand(self, roles):
+            await asyncio.sleep(0)
+            return list(roles or []) + grants.get(tenant.get(), [])
+    s_, a_, r_, c_ = real.make_request({"sid": "u", "roles": [], "sattrs": {}, "action": "read", "rtype": "doc", "rid": "1", "rattrs": {}, "ctx": {}})
+
+    def sequence(g, how):
+        out = []
+        for t in ("acme", "globex", "acme", "globex"):
+            tenant.set(t)
+            if how == "sync":
+                d = g.evaluate_sync(s_, a_, r_, c_)
+            elif how == "async":
+                d = asyncio.run(g.evaluate_async(s_, a_, r_, c_))
+            else:
+                async def outer():
+                    return g.evaluate_sync(s_, a_, r_, c_)
+                d = asyncio.run(outer())
+            out.append(bool(d.allowed))
+        return out
+    want = [True, False, True, False]
+    for res_name, res in (("sync resolver", SyncRes), ("async resolver", AsyncRes)):
+        for how in ("sync", "async", "sync-in-loop"):
+            for where in ("main thread", "pool thread"):
+                g = Guard(copy.deepcopy(pol), role_resolver=res())
+                run.evaluations += 1
+                run.count("ambient-context")
+                try:
+                    if where == "main thread":
+                        got = contextvars.copy_context().run(sequence, g, how)
+                    else:
+                        with ThreadPoolExecutor(max_workers=1) as ex:
+                            got = ex.submit(lambda: contextvars.copy_context().run(sequence, g, how)).result(timeout=WATCHDOG)
+                except Exception as e:  # noqa: BLE001
+                    got = f"{type(e).__name__}: {e}"
+                # what is required: a collaborator sees the caller's CURRENT context or none at all (the variable's default; the sync API
+                # inside a running loop evaluates on a helper thread that does not inherit the caller's context) — never the context of an
+                # EARLIER call: that would make the decision depend on the history of the thread
+                default_answer = bool(grants.get("none"))
+                if isinstance(got, list) and all(x in (w, default_answer) for x, w in zip(got, want)) and len(got) == len(want):
+                    run.count("ambient-context:" + ("current" if got == want else "no-caller-context"))
+                    continue
+                if got != want:
+                    run.spec_failures.append({"part": "ambient context", "collaborator": res_name, "api": how, "where": where, "policy": pol,
+                                              "tenants_in_order": ["acme", "globex", "acme", "globex"], "grants": grants, "allowed": got, "expected": want,
+                                              "spec": "a collaborator saw the ambient context of an EARLIER call (neither the caller's current context nor none): the decision depends on the thread's history"})
+
+
 def check(run: lib.Run, audit: dict) -> int:
     run.rule = ("deadlock: per-run obligation over 5 traced scenarios (check / start+stop × plain / running loop × initial load) + every blocking "
                 "entry point × {plain thread, running loop, worker thread} under a watchdog (28 probes per context incl. collaborators that re-enter a second Guard, async source, stop(None) "
                 "with the poller mid-check, stop/start/diagnostics with the poller stuck inside source.load()/etag()); flavours: C01 template pool (subsampled) + random grammar cases × 7 flavours (sync / async API / sync inside a loop × sync, async-def and awaitable-returning collaborators) with recording sinks, "
                 "policy/request canonical form compared before/after (every third case also with a log sink that scrubs its payload in place); one batch of 60 concurrent evaluate_async over 12 engines against the "
-                "sequential results. non-trivial = a rule decided")
+                "sequential results; collaborators reading a caller-set ContextVar over 4 calls with alternating values (3 APIs × sync/async resolver × main / pool "
+                "thread: current or no caller context, never an earlier call's); an evaluation paused at every matcher/evaluator call of its decision "
+                "function while another request is decided on a second thread. non-trivial = a rule decided")
     run.assumptions = ["flavour equality, non-interference and non-mutation are observed, not proved (PARTIAL)",
                        "threading.RLock is a correct re-entrant mutex; Future.result/Thread.join block until the thread finishes"]
     if not audit["ok"]:
@@ -370,6 +435,13 @@ def check(run: lib.Run, audit: dict) -> int:
     else:
         flavours_and_mutation(run, audit)
         concurrency(run)
+        ambient_context(run)
+        # one evaluation paused inside its decision while another request is decided on a second thread (shared with C09)
+        from props import c09 as _c09
+        before = len(run.spec_failures)
+        _c09.inside_decision_probes(run)
+        for f in run.spec_failures[before:]:
+            f["spec"] = "concurrent evaluations affected each other: " + f["spec"]
     violations = []
     if run.spec_failures:
         path = run.write_replay("spec", {"what": "C14 violated", "case": run.spec_failures[0], "count": len(run.spec_failures)})
